@@ -200,17 +200,34 @@ def exact_pairs(arr):
     return out
 
 
+def digest(xs):
+    h = 17
+    for x in xs:
+        h = (h * 1000003 + x) % 2305843009213693951
+    return h
+
+
 def flat_vals(arr, e=3):
     out = []
     for t, k in array_to_pairs(arr, e):
         out += [t, k]
+    if len(arr) > 600:
+        return [4, digest(out)]
     return out
+
+
+def flat_mask(keep):
+    import numpy as np
+    bits = np.asarray(keep).astype(np.int64).tolist()
+    if len(bits) > 600:
+        return [4, digest(bits)]
+    return bits
 
 
 def flat_result(asd, bsd, keep):
     import numpy as np
     keep = np.asarray(keep)
-    return ([0, int(keep.sum())] + keep.astype(np.int64).tolist()
+    return ([0, int(keep.sum())] + flat_mask(keep)
             + flat_vals(asd) + flat_vals(bsd))
 
 
@@ -375,16 +392,19 @@ def pick_samples(rng, n, ngood):
 
 
 def gen_size(rng, thorough, big_ok=True):
+    """Parsing the case literals dominates the cost of the model run
+    (~0.4 ms per value), so the quick tier keeps most arrays small; the big
+    ones are added explicitly by gen_cases."""
     c = rng.random()
     if c < 0.12:
         return rng.choice([0, 1, 2, 3, 4, 5, 8])
-    if c < 0.7:
+    if c < 0.72:
         return rng.randint(6, 60)
-    if c < 0.93:
-        return rng.randint(61, 400)
-    if c < 0.99 or not big_ok:
-        return rng.randint(401, 3000)
-    return rng.choice([20000, 100000] if thorough else [20000])
+    if c < 0.95:
+        return rng.randint(61, 300)
+    if c < 0.99 or not big_ok or not thorough:
+        return rng.randint(301, 1500)
+    return rng.randint(1501, 6000)
 
 
 def gen_recipe(rng, thorough):
@@ -416,7 +436,7 @@ DS_FEATS = ["area_um", "deform", "bright_avg"]
 
 def gen_ds_case(rng, thorough):
     n = max(1, gen_size(rng, thorough, big_ok=False))
-    if n > 400:
+    if n > 150:
         n = n // 4
     seed = rng.randint(0, 2 ** 31 - 1)
     feats = {}
@@ -445,7 +465,7 @@ def gen_ds_case(rng, thorough):
     limit = rng.choice([0, 0, 1, 2, n // 2, n - 1, n, n + 1, 2 * n,
                         rng.randint(1, n)])
     reqs = []
-    for _ in range(rng.randint(2, 5)):
+    for _ in range(rng.randint(2, 4)):
         xax, yax = rng.sample(DS_FEATS, 2)
         reqs.append(dict(xax=xax, yax=yax,
                          downsample=rng.choice([0, 1, 2, n // 3, n // 2, n - 1,
@@ -707,9 +727,8 @@ def exec_ds_case(case, rng):
                             "leaves %d events, expected %d" % (
                                 name, lim, int(comb.sum()), int(fall.sum()),
                                 want), None))
-                obs.append(("filter", [0, int(fall.sum())]
-                            + fall.astype(int).tolist(),
-                            (box, inv, pol, man)))
+                obs.append(("filter", [0, int(fall.sum())] + flat_mask(fall),
+                            (box, inv, pol, man, fall)))
                 for rq in case["requests"]:
                     kw = dict(xax=rq["xax"], yax=rq["yax"],
                               downsample=rq["downsample"], xscale=rq["xscale"],
@@ -772,11 +791,10 @@ def exec_ds_case(case, rng):
             flats[nm] = o[j][1] if j < len(o) and isinstance(o[j], tuple) \
                 else [99]
         if ob[0] == "filter":
-            box, inv, pol, man = ob[2]
+            box, inv, pol, man, fall_ref = ob[2]
             rendered = render(2, [r_bools(box), r_bools(inv), r_bools(pol),
                                   r_bools(man)],
                               [case["enable"], case["limit"]], rows)
-            fall_ref = np.array(ob[1][2:], dtype=bool)
         else:
             rq = ob[2]
             xf, yf = data[rq["xax"]], data[rq["yax"]]
@@ -809,6 +827,19 @@ def load_corpus():
     return cases
 
 
+def big_case(rng, n, kind="grid"):
+    c = gen_array_case(rng, True, kind)
+    while c["recipe"]["sa"] == "constant" or c["recipe"]["sb"] == "constant" \
+            or c["recipe"]["ia"] == "all":
+        c = gen_array_case(rng, True, kind)
+    c["recipe"]["n"] = n
+    av, at, bv, bt = arrays_from_recipe(c["recipe"])
+    ngood = int(((at == 0) & (bt == 0)).sum()) if kind == "grid" \
+        else int((at == 0).sum())
+    c["samples"] = pick_samples(rng, n, ngood)
+    return c
+
+
 def gen_cases(rng, thorough, ngrid, nrand, nds):
     cases = []
     for _ in range(ngrid):
@@ -817,6 +848,13 @@ def gen_cases(rng, thorough, ngrid, nrand, nds):
         cases.append(gen_array_case(rng, thorough, "rand"))
     for _ in range(nds):
         cases.append(gen_ds_case(rng, thorough))
+    # a few large arrays (sizes up to 1e5 in the thorough tier)
+    if thorough:
+        for n in (20000, 20000, 50000, 100000, 100000):
+            cases.append(big_case(rng, n))
+        cases.append(big_case(rng, 100000, "rand"))
+    else:
+        cases.append(big_case(rng, 6000))
     return cases
 
 
